@@ -222,6 +222,13 @@ type cluster struct {
 	// airTrace, if set, writes down every key-generation operation a machine handles in the abstract form of
 	// Model/AirDkg.lean (airdkg.go)
 	airTrace *airTrace
+	// password of the airgapped machines (a machine that is restarted is unlocked with it again)
+	password string
+	// dbFault, if it says yes for an operation, makes the database of that participant's airgapped machine unavailable while
+	// the machine handles the operation (storage fault); the machine is restarted on its database right afterwards
+	dbFault func(n *vnode, cold types.Operation) bool
+	// resultMon, if set, is told about a key-generation result file that reports a failure AND carries other messages
+	resultMon func(string)
 }
 
 var testMnemonics = []string{
@@ -282,7 +289,7 @@ func (c *cluster) buildNodeServices(n *vnode) error {
 var clusterNames []string
 
 func newCluster(dir string, n int, password string) (*cluster, error) {
-	c := &cluster{dir: dir, board: filepath.Join(dir, "board.txt"), lock: filepath.Join(dir, "board.lock")}
+	c := &cluster{dir: dir, board: filepath.Join(dir, "board.txt"), lock: filepath.Join(dir, "board.lock"), password: password}
 	os.MkdirAll(dir, 0o755)
 	for i := 0; i < n; i++ {
 		name := fmt.Sprintf("node_%d", i)
@@ -414,7 +421,12 @@ func (c *cluster) answerOp(n *vnode, op *types.Operation) error {
 		rb = cached
 	} else {
 		n.coldLog = append(n.coldLog, cold)
-		path, err := n.air.ProcessOperation(cold, true)
+		var path string
+		if c.dbFault != nil && c.dbFault(n, cold) {
+			path, err = c.processWithDBFault(n, cold)
+		} else {
+			path, err = n.air.ProcessOperation(cold, true)
+		}
 		if err != nil {
 			if c.airTrace != nil {
 				c.airTrace.record(c, n, cold, nil, err)
@@ -443,10 +455,38 @@ func (c *cluster) answerOp(n *vnode, op *types.Operation) error {
 	if err := json.Unmarshal(rb, &res); err != nil {
 		return fmt.Errorf("result file: %w", err)
 	}
+	if c.resultMon != nil && strings.HasPrefix(string(cold.Type), "state_dkg_") && strings.Contains(string(res.Event), "error") && len(res.ResultMsgs) != 1 {
+		var evs []string
+		for _, rm := range res.ResultMsgs {
+			evs = append(evs, rm.Event)
+		}
+		c.resultMon(fmt.Sprintf("the machine of %s answers the %s operation of round %.8s with the failure event %s, and the result file carries %d messages for the board: %s", n.name, cold.Type, cold.DKGIdentifier, res.Event, len(res.ResultMsgs), strings.Join(evs, ", ")))
+	}
 	if c.resultHook != nil {
 		c.resultHook(n, &res)
 	}
 	return n.svc.ProcessOperation(opToDTO(&res))
+}
+
+// processWithDBFault: the LevelDB of n's airgapped machine is closed while the machine handles the operation (whatever the
+// handler wants to read from or write to the database fails; the operation log cannot be written either, so the result file
+// is produced without logging, the way ReplayOperationsLog produces one). Then the operator restarts the machine on the same
+// database directory and unlocks it with the same password.
+func (c *cluster) processWithDBFault(n *vnode, cold types.Operation) (string, error) {
+	n.air.VerifCloseDB()
+	path, err := n.air.ProcessOperation(cold, false)
+	m, e := airgapped.NewMachine(filepath.Join(n.dir, "airgapped"))
+	if e != nil {
+		return "", fmt.Errorf("harness: the machine does not restart after the storage fault: %w", e)
+	}
+	m.SetEncryptionKey([]byte(c.password))
+	if e := m.InitKeys(); e != nil {
+		m.VerifCloseDB()
+		return "", fmt.Errorf("harness: the restarted machine does not unlock: %w", e)
+	}
+	m.SetResultFolder(filepath.Join(n.dir, "results"))
+	n.air = m
+	return path, err
 }
 
 func (c *cluster) answerAll(n *vnode) (int, []string) {
